@@ -16,7 +16,7 @@ RULE = ('Loop trees are obtained with the real X12ContextReader from generated d
         'Segment/Composite/Element or child list shared. non-trivial = distinct histories with >=1 mutating call.')
 ASSUMPTIONS = ['qualified paths are generated only for segments whose map node has a first-element ID qualifier list (elsewhere the qualifier is ignored by design)',
                'values written contain no delimiter characters; the link from a copy\'s root to its enclosing context is not counted as shared mutable data']
-REQUIRED_COUNTERS = ['paths:qualifier-held-in-a-composite', 'ops:delete_segment:near-miss', 'ops:from-below', 'ops:from-below:depth-2', 'histories', 'ops:get', 'ops:set', 'ops:count', 'ops:add_segment', 'ops:add_loop', 'ops:delete_segment', 'ops:delete_node', 'ops:copy', 'ops:add_node',
+REQUIRED_COUNTERS = ['ops:segment-node-qualified-path', 'ops:segment-node-qualified-path:other-qualifier', 'paths:qualifier-held-in-a-composite', 'ops:delete_segment:near-miss', 'ops:from-below', 'ops:from-below:depth-2', 'histories', 'ops:get', 'ops:set', 'ops:count', 'ops:add_segment', 'ops:add_loop', 'ops:delete_segment', 'ops:delete_node', 'ops:copy', 'ops:add_node',
                      'ops:garbage', 'serialisations-compared', 'copy:parent-path-edits']
 MIN_CASES = {'quick': 1200, 'thorough': 40000}
 WATCHDOG_S = {'quick': 1200, 'thorough': 7200}
@@ -353,6 +353,53 @@ class History(object):
             return
         if got != exp:
             self.viol('get_value:wrong-value', 'get_value differs from the model (first matching segment, element/component)', {'path': path, 'got': got, 'expected': exp})
+
+    def op_segnode(self):
+        """paths addressed to a SEGMENT node (as returned by select): SEG[q]NN answers only when the node's own qualifier is q; with another code of
+        the node's list there is nothing to read and nothing to write"""
+        sp = self.pick_seg_path()
+        if sp is None:
+            return
+        p, sid, _q = sp
+        path = self.path_text(p, sid, None)
+        exp = m_select(self.model, list(p), sid, None)
+        try:
+            sel = list(self.real.select(path))
+        except Exception:
+            return      # op_query judges select
+        if len(sel) != len(exp) or not exp:
+            return
+        k = self.rng.randrange(len(exp))
+        rn, mn_ = sel[k], exp[k]
+        q = qual_spec(mn_.node)
+        if q is None or rn.type != 'seg':
+            return
+        own = mn_.get(q[1], q[2])
+        other = [c for c in q[0] if c != own and c.isalnum() and c.isupper()]
+        e = self.rng.choice([x for x in (1, 2, 3, 4) if x != q[1]])
+        for code, matches in ([(own, True)] if own in q[0] else []) + ([(self.rng.choice(other), False)] if other else []):
+            pth = '%s[%s]%02d' % (sid, code, e)
+            self.ops.append(('segnode', path, k, pth))
+            self.ctx.count('ops:segment-node-qualified-path' + ('' if matches else ':other-qualifier'))
+            want = mn_.get(e, None) if matches else None
+            try:
+                got = rn.get_value(pth)
+            except Exception as ex:
+                self.viol('segnode:get_value:%s' % exc_key(ex), 'get_value on a segment node raised', {'exc': repr(ex)[:200], 'node': path, 'index': k, 'path': pth})
+                return
+            if (got or None) != (want or None):
+                self.viol('segnode:get_value:%s' % ('wrong-value' if matches else 'answers-for-another-qualifier'), 'a qualified path on a segment node returns a value it should not',
+                          {'node': path, 'index': k, 'path': pth, 'got': got, 'expected': want})
+                return
+            if not matches:
+                try:
+                    rn.set_value(pth, 'CHANGED')
+                    self.viol('segnode:set_value:accepted-for-another-qualifier', 'set_value with a qualifier the segment does not carry changed it', {'node': path, 'index': k, 'path': pth})
+                    return
+                except Exception as ex:
+                    if type(ex).__name__ != 'X12PathError':
+                        self.viol('segnode:set_value:%s' % exc_key(ex), 'set_value on a segment node raised something other than X12PathError', {'exc': repr(ex)[:200], 'path': pth})
+                        return
 
     def op_set(self):
         sp = self.pick_seg_path()
@@ -826,7 +873,7 @@ class History(object):
         if not self.compare():
             return
         ops = [self.op_get, self.op_get, self.op_set, self.op_set, self.op_query, self.op_query, self.op_add_segment, self.op_add_segment, self.op_add_loop,
-               self.op_delete_segment, self.op_delete_node, self.op_garbage, self.op_copy, self.op_add_node, self.op_from_below, self.op_from_below]
+               self.op_delete_segment, self.op_delete_node, self.op_garbage, self.op_copy, self.op_add_node, self.op_from_below, self.op_from_below, self.op_segnode]
         for _ in range(n):
             self.rng.choice(ops)()
             if self.failed:
